@@ -139,6 +139,10 @@ let () =
         print_endline (String.concat ";" (List.map (fun o ->
             Printf.sprintf "%d/%d/%s" (if o.ko_found then 1 else 0) (if o.ko_err then 1 else 0)
               (match o.ko_val with KvInit -> Printf.sprintf "%h" 111.0 | KvDefault -> Printf.sprintf "%h" 222.0 | KvUser d -> Printf.sprintf "%h" (float_of_dec d))) outs))
+      | "CW" :: allowed :: w :: _ ->
+        (* line_ok of the model for a line holding one word, with the recorded keyword list of a real block *)
+        let al = List.map unhex (String.split_on_char ',' allowed) in
+        print_endline (if check_keywords al (unhex w) [] = CK_ok then "accept" else "reject")
       | "KS" :: calls :: _ ->
         (* successive key_lookup calls on one parser object: conf:key:savepos|conf:key:savepos|... *)
         let cl = List.map (fun c -> match String.split_on_char ':' c with
